@@ -383,6 +383,27 @@ def r_c19_summary_bytes_match_stdout(s4, repo, scratch):
             'observed': 'all equal' if not bad else 'file %s options [%s]: stdout %d bytes, summary total %s, per-file %s' % bad, 'failed': bool(bad)}
 
 
+def r_c13_prependdate_lines_in_parts(s4, repo, scratch):
+    """datetime field only, lines longer than the block: the field appears once per line"""
+    inp = os.path.join(scratch, 'c13_parts.log')
+    body = ''.join('2024-01-01 00:00:%02d +00:00 %s line %d\n%s' % (i, 'x' * 10, i, ('    continuation of %d %s\n' % (i, 'y' * 80)) if i % 2 else '') for i in range(1, 9))
+    open(inp, 'w').write(body)
+    rc1, plain, _ = run_s4(s4, ['--color', 'never', '--blocksz', '64', inp])
+    rc2, deco, _ = run_s4(s4, ['--color', 'never', '--blocksz', '64', '-u', '-d', '%Y%m%dT%H%M%S', inp])
+    out = []
+    ok = True
+    for l in deco.splitlines(True):
+        if len(l) > 16 and l[8:9] == b'T' and l[15:16] == b':':
+            out.append(l[16:])
+        else:
+            ok = False
+            out.append(l)
+    ok = ok and b''.join(out) == plain and plain == body.encode()
+    return {'name': 'C13.prependdate_lines_in_parts', 'input': inp, 'how_made': '8 messages, every second one with an 80-byte continuation line; --blocksz 64 so that lines are held in several parts',
+            'cmd': '%s --color never --blocksz 64 -u -d %%Y%%m%%dT%%H%%M%%S %s' % (s4, inp), 'expected': 'every line = 15-character datetime field, ":", then the undecorated line',
+            'observed': 'as expected' if ok else 'differs: %r' % deco[:300], 'failed': not ok}
+
+
 RECIPES = {
     'C19': [r_c19_summary_bytes_match_stdout],
     'C02': [r_c02_continuation_at_block_boundary, r_c02_mixed_notation_first_message],
@@ -390,7 +411,7 @@ RECIPES = {
     'C10': [r_c03_evtx_window],
     'C01': [r_c01_tie_order, r_c01_chronological, r_c01_submillisecond],
     'C06': [r_c01_tie_order, r_c01_chronological, r_c01_submillisecond],
-    'C13': [r_c13_field_order_fixedstruct, r_c13_align_widest_printed, r_c13_evtx_prepend_file_only],
+    'C13': [r_c13_field_order_fixedstruct, r_c13_align_widest_printed, r_c13_evtx_prepend_file_only, r_c13_prependdate_lines_in_parts],
     'C03': [r_c03_journal_before_inclusive, r_c03_evtx_window, r_c03_yearless_tie_at_after],
     'C08': [r_c08_equal_times, r_c08_order, r_c08_smallest_layout_single_record],
 }
